@@ -269,8 +269,28 @@ def malformed_twin(fc):
     return make
 
 
+def truncated_datagram(E):
+    """datagram front-ends hand every datagram to one framer: a datagram that announces more bytes than it carries (MBAP length larger than
+    what arrived) is a malformed frame, not the beginning of one - it is discarded whole, so that nothing of it can be completed by bytes
+    of the next datagram (possibly from another peer) and executed"""
+    from . import framers as F
+    from spec import pdu as P2
+    rec = F.Rec()
+    f = F.fresh_framer(E, 'socket', rec, outcomes=('message', 'none'))
+    d = E.bytes('datagram', 8, 300)
+    n = L.length(d)
+    announced = P2.u16_at(d, 4)
+    E.assume(L.And(announced >= 2, announced - 1 > n - 7))          # PDU bytes announced > PDU bytes present
+    cb = E.callback(F.callback(E, rec), 'callback')
+    out = E.attempt(lambda: E.method(f, 'processIncomingPacket', d, cb, E.int('unit0', 0, 256), single=E.bool('single')))
+    E.prove('datagram:truncated-frame-raises-nothing', out.ok)
+    E.prove('datagram:truncated-frame-delivers-nothing', len(rec.delivered) == 0)
+    E.prove('datagram:truncated-frame-is-discarded-whole(nothing-left-for-the-next-datagram)', L.length(E.get(f, '_buffer')) == 0)
+
+
 def get_units():
-    us = []
+    us = [Unit('%s/datagram.truncated' % PROP, truncated_datagram, [PROP], functions=['pymodbus.framer.socket_framer.ModbusSocketFramer.processIncomingPacket',
+                                                                                       'pymodbus.framer.socket_framer.ModbusSocketFramer.checkFrame'])]
     for fc in (5, 6, 15, 16, 22, 23):
         us.append(Unit('%s/malformed.fc%02d' % (PROP, fc), malformed_lemma(fc), [PROP], contracts=WRITE_CONTRACTS, twin=malformed_twin(fc),
                        functions=[M.REQ[fc] + '.decode', M.REQ[fc] + '.execute', DEC + '.decode', DEC + '._helper']))
